@@ -31,13 +31,13 @@ CHECKS.update({
          "A defect shared by all configurations is invisible here (C01 covers that). Randomised address selection is neutralised with max-answer >= candidates; additional addresses compared by owner+family.","4/C02"),
  "C13": ("exploration","runtime monitor with recover/pack/unpack oracle over seeded hostile wire-valid messages on every database layout and backend",
          "Feeds seeded hostile messages (all survive a pack/unpack round trip first) to real handlers loaded with generated databases of every layout (root zone, root delegation, TLD zone, empty file, ...) on CDB and RocksDB v1/v2 through UDP and TCP writers; each call must return without panic, write at most one message that packs, unpacks, has QR, the query's id and first question, fits the advertised size or has TC, and is BADVERS for EDNS version != 0; a twin query without private-use options must get the same reply.",
-         "Go panics are recovered in-process; a fatal runtime error would abort the check (exit != 0). Only messages miekg/dns can pack are generated.","4/C13"),
+         "Go panics are recovered in-process; the concurrent phase runs in a child process whose death is reported as the violation. Only messages miekg/dns can pack are generated. Every UDP reply, truncated or not, must fit the advertised size.","4/C13"),
  "C10": ("exploration","runtime oracle on the wire form of replies: prescribed OPT/ECS echo and scope from the LPM/name-map model, served records checked against the reference resolver for the location the subnet selects",
          "Sends generated queries without EDNS, with EDNS only and with ECS (family 1/2, source lengths around and across the declared subnet lengths, plus cookie/DO/size variation) to real handlers on CDB (combined and per-family prefix sets), RocksDB v1 and v2; the reply is re-read from its wire bytes and must carry OPT/ECS exactly as the query did, the prescribed scope, and the records of the location selected by the subnet, else the resolver.",
          "Trusts the LPM/name-map model and the reference resolver. EDNS version 0; one in five non-octet source lengths has bits set beyond it (echoed address compared masked, as the DNS library packs it); two cache-enabled servers receive follow-up queries with other EDNS contents for the same question.","4/C10"),
  "C11": ("exploration","runtime monitor: per-response invariants over repeated identical queries from 16 goroutines, chi-square goodness-of-fit of selection counts (alarm below p=1e-9), race-detector child run",
          "For generated weighted address sets (weights incl. 0 and 2^32-1, locations, wildcard owners, NS/MX targets) every response of up to 4e5 repeated queries per configuration is checked for bound, distinctness, soundness, exact count min(max, positive-weight candidates), weight-0 exclusion and NOERROR; selection frequencies for max=1 and for additional-section addresses are tested against w_i/sum(w); the same workload runs under the Go race detector.",
-         "Proportionality is statistical (false alarm < 1e-9 per configuration); the 2^-32 boundary draws of the implementation are tolerated once per configuration and re-run.","4/C11"),
+         "Proportionality is statistical (false alarm < 1e-9 per configuration); the 2^-32 boundary draws of the implementation are tolerated once per configuration and re-run. A cache-enabled handler is asked with several max-answer settings in turn.","4/C11"),
  "C04": ("exploration","metamorphic runtime monitor: responses before/after edits confined to a foreign location (or an unbound map) must be identical on three storage configurations",
          "For each generated file F builds F' by adding/deleting only records tagged with a foreign location right next to the existing data (same owners, children, apexes as SOA/NS, wildcards, new delegations, glue) and by adding subnets of a map bound to no name; F and F' are compiled to CDB and RocksDB v1/v2 and every generated query from every client not located in the foreign location must get the identical canonical response.",
          "No model of the answers is needed; clients in the foreign location are skipped. Random address selection neutralised with max-answer >= candidates.","4/C04"),
